@@ -44,12 +44,14 @@ def plan(tier, seed):
             specs.append({"name": f"lat-{h}-{i}", "kind": "lattice", "hash": h, "mode": mode, "a_values": list(range(i, 32, nshard))})
     for i, h in enumerate(common.HASHES):
         specs.append({"name": f"api-{h}", "kind": "api", "hash": h, "n": 1024 if tier == "thorough" else 256})
+    for i in range(4 if tier == "quick" else 16):
+        specs.append({"name": f"apidc-{i}", "kind": "apidc", "n": 120 if tier == "quick" else 3000})
     return specs
 
 
 def finalize(agg, tier):
     r = []
-    for c in ("covering_compared", "noncovering_rejected", "kdf_calls_metered", "api_unprotect_compared", "stepmeter_samples"):
+    for c in ("covering_compared", "noncovering_rejected", "kdf_calls_metered", "api_unprotect_compared", "stepmeter_samples", "apidc_cache_derived", "apidc_back_to_dc"):
         if agg.counter(c) == 0:
             r.append(f"monitor never reached: {c}")
     return r
@@ -223,10 +225,71 @@ def run_api(spec, rec: Recorder):
         rec.mark_exhaustive(f"API unprotect of reference blobs at all 1024 positions ({h})")
 
 
+def run_apidc(spec, rec: Recorder):
+    """API level with seed material that came from a (reference) DC: a cache seeded by the DC's reply for
+    position p' must serve blobs at p <= p' from the cache with the right key, and go back to the DC for p > p'."""
+    import dpapi_ng
+    from vf.props import online
+    from vf.refdc import frontends as fe
+    from vf.refdc.core import DCConfig, DCCore
+
+    mon.KDFS.install()
+    rng = common.rng_for(ID, spec)
+    edge = [0, 1, 30, 31]
+    for i in range(spec["n"]):
+        h = common.HASHES[i % 4]
+        rkid = uuid.UUID(int=rng.getrandbits(128))
+        rk = online.root_key(rng, h, "DH")
+        l0 = rng.choice([361, 0, 2**31 - 1, rng.randrange(1000)])
+        pick = lambda: rng.choice(edge) if rng.random() < 0.4 else rng.randrange(32)  # noqa: E731
+        pp = (pick(), pick())
+        p = (pick(), pick())
+        cfg = DCConfig({rkid: rk}, rkid, now=(l0, 31, 31), security="scripted")
+        cfg.l2_key_absent_at_31 = bool(i % 2)
+        core = DCCore(cfg)
+        sid = online.gen_sid(rng)
+        cache = dpapi_ng.KeyCache()
+        kw = dict(server="dc.c02.test", username="u", password="p", auth_protocol="ntlm", cache=cache)
+        b1 = online.ref_blob(rng, rkid, rk, sid, (l0,) + pp, "nonce", b"first")
+        b2 = online.ref_blob(rng, rkid, rk, sid, (l0,) + p, "nonce", b"second")
+        wit = {"hash": h, "l0": l0, "envelope": list(pp), "request": list(p), "sid": sid, "l2_absent": cfg.l2_key_absent_at_31}
+        mem = fe.MemoryDC(core)
+        try:
+            with mem.installed():
+                mon.KDFS.n, mon.KDFS.limit = 0, 200
+                r1 = dpapi_ng.ncrypt_unprotect_secret(b1, **kw)
+                before = core.getkey_count
+                mon.KDFS.n, mon.KDFS.limit = 0, 200
+                r2 = dpapi_ng.ncrypt_unprotect_secret(b2, **kw)
+                rpcs = core.getkey_count - before
+        except mon.BudgetExceeded as e:
+            rec.violation("l2-walk-no-cover-check", f"DC-seeded cache at {pp}, blob at {p}: {e}", wit)
+            continue
+        except Exception as e:
+            rec.violation("apidc-unprotect-failed", f"DC-seeded cache at {pp}, blob at {p}: {type(e).__name__}: {e}", wit)
+            continue
+        finally:
+            mon.KDFS.limit = 1 << 62
+        if r1 != b"first" or r2 != b"second":
+            rec.violation("derived-key-mismatch", f"DC-seeded cache at {pp}, blob at {p}: wrong plaintext", wit)
+        if covers(pp[0], pp[1], p[0], p[1]):
+            rec.count("apidc_cache_derived")
+            if rpcs:
+                rec.violation("covering-went-to-dc", f"cache holds seed keys for {pp} which cover {p}, but the DC was contacted again", wit)
+        else:
+            rec.count("apidc_back_to_dc")
+            if not rpcs:
+                rec.violation("noncovering-served-from-cache", f"cache holds seed keys for {pp} which do not cover {p}, yet no GetKey was made", wit)
+        rec.case(("apidc", h, l0, pp, p))
+    rec.sample({"kind": "apidc", "example": wit})
+
+
 def run_shard(spec, rec: Recorder):
     if not common.calibrate(rec, "crypto", "gkdi", "sd", "cms"):
         return
-    {"lattice": run_lattice, "api": run_api}[spec["kind"]](spec, rec)
+    if spec["kind"] == "apidc" and not common.calibrate(rec, "rpc", "epm"):
+        return
+    {"lattice": run_lattice, "api": run_api, "apidc": run_apidc}[spec["kind"]](spec, rec)
 
 
 def replay(body, rec: Recorder):
@@ -234,6 +297,10 @@ def replay(body, rec: Recorder):
     from dpapi_ng import _gkdi as G
 
     w = body["witness"]
+    if body.get("shard", "").startswith("apidc"):
+        run_shard({"name": body["shard"], "seed": body["seed"], "tier": body["tier"], "kind": "apidc", "n": 120 if body["tier"] == "quick" else 3000}, rec)
+        rec.violations[:] = [v for v in rec.violations if v["mechanism"] == body["mechanism"]][:3]
+        return
     if "blob" in w:
         import dpapi_ng
 
